@@ -4,10 +4,13 @@ package c16
 import (
 	"bytes"
 	"crypto"
+	"crypto/rand"
 	"crypto/sha256"
 	"crypto/x509"
+	"crypto/x509/pkix"
 	"encoding/asn1"
 	"fmt"
+	"github.com/sassoftware/relic/v8/config"
 	"math/big"
 	"os"
 	"os/exec"
@@ -53,6 +56,9 @@ func TestMain(m *testing.M) {
 		panic(err)
 	}
 	gkeys = makeKeys()
+	if err := addForeignIssuerKey(); err != nil {
+		panic(err)
+	}
 	code := m.Run()
 	rec.Flush()
 	os.RemoveAll(workDir)
@@ -76,7 +82,70 @@ func makeKeys() cmsgen.Keys {
 		panic(err)
 	}
 	k.TSA = auth
+	// revocation lists travelling inside the SignedData: one made by Go, one encoded the
+	// way another issuer might (a re-encoding would not reproduce its bytes)
+	if crl, err := x509.CreateRevocationList(rand.Reader, &x509.RevocationList{Number: big.NewInt(3), ThisUpdate: now.Add(-time.Hour), NextUpdate: now.AddDate(0, 1, 0),
+		RevokedCertificateEntries: []x509.RevocationListEntry{{SerialNumber: big.NewInt(0xbeef), RevocationTime: now.Add(-2 * time.Hour)}}}, ca.Cert, ca.Key); err == nil {
+		k.CRLs = append(k.CRLs, crl)
+	} else {
+		panic(err)
+	}
+	foreign, err := cmsgen.ForeignCRL(ca.Key, now)
+	if err != nil {
+		panic(err)
+	}
+	k.CRLs = append(k.CRLs, foreign)
 	return k
+}
+
+// outputKeys are the configured keys relic signs with in TestC16_RelicOutputs: the pool
+// keys plus one whose certificate was issued by a CA that encodes its name differently
+// from Go (UTF8String / IA5String / T61String values): the issuer bytes relic copies into
+// the SignerInfo must be the certificate's own.
+var outputKeys = append(append([]string{}, pipe.SigningKeys...), "foreign-issuer", "foreign-issuer")
+
+func addForeignIssuerKey() error {
+	caKey := keys.Key("p384b")
+	name := der.EncSeq(
+		der.EncSet(der.EncSeq(der.EncOID("2.5.4.6"), der.EncTLV(der.ClassUniversal, false, 19, []byte("DE")))),
+		der.EncSet(der.EncSeq(der.EncOID("2.5.4.10"), der.EncUTF8("Example Corp"))),
+		der.EncSet(der.EncSeq(der.EncOID("2.5.4.11"), der.EncTLV(der.ClassUniversal, false, 20, []byte("Signing Unit")))), // T61String
+		der.EncSet(der.EncSeq(der.EncOID("2.5.4.3"), der.EncUTF8("Example Code Signing CA"))),
+	)
+	caTpl := &x509.Certificate{SerialNumber: big.NewInt(0x5151), RawSubject: name, NotBefore: keys.Epoch, NotAfter: keys.Far,
+		KeyUsage: x509.KeyUsageCertSign | x509.KeyUsageCRLSign, IsCA: true, BasicConstraintsValid: true}
+	caDER, err := x509.CreateCertificate(rand.Reader, caTpl, caTpl, caKey.Public(), caKey)
+	if err != nil {
+		return err
+	}
+	caCert, err := x509.ParseCertificate(caDER)
+	if err != nil {
+		return err
+	}
+	leafTpl := &x509.Certificate{SerialNumber: big.NewInt(2), Subject: pkix.Name{CommonName: "c16 foreign-issued signer"}, NotBefore: keys.Epoch, NotAfter: keys.Far,
+		KeyUsage: x509.KeyUsageDigitalSignature, ExtKeyUsage: []x509.ExtKeyUsage{x509.ExtKeyUsageCodeSigning}}
+	leafDER, err := x509.CreateCertificate(rand.Reader, leafTpl, caCert, keys.Key("p256a").Public(), caKey)
+	if err != nil {
+		return err
+	}
+	leaf, err := x509.ParseCertificate(leafDER)
+	if err != nil {
+		return err
+	}
+	if !bytes.Equal(leaf.RawIssuer, name) {
+		return fmt.Errorf("harness: issuer name was re-encoded by the certificate builder")
+	}
+	crt := filepath.Join(workDir, "foreign-issuer.crt")
+	if err := os.WriteFile(crt, keys.CertPEM(leaf, caCert), 0o644); err != nil {
+		return err
+	}
+	cfg := env.Cfg
+	cfg.Keys["foreign-issuer"] = &config.KeyConfig{Token: "file", KeyFile: cfg.Keys["p256a"].KeyFile, X509Certificate: crt, Roles: []string{"signer"}}
+	if err := env.Install(cfg); err != nil {
+		return err
+	}
+	env.Leaf["foreign-issuer"] = leaf
+	return nil
 }
 
 func regionsOf(t *rapid.T, raw []byte) (map[string][]byte, *der.SignedData) {
@@ -235,6 +304,13 @@ func TestC16_RoundTrip(t *testing.T) {
 	})
 }
 
+func kindOf(key string) string {
+	if key == "foreign-issuer" {
+		return "foreign-issuer"
+	}
+	return keys.Kind(key)
+}
+
 func clipb(b []byte) []byte {
 	if len(b) > 24 {
 		return b[:24]
@@ -352,7 +428,7 @@ func TestC16_RelicOutputs(t *testing.T) {
 	rapid.Check(t, func(t *rapid.T) {
 		const test = "TestC16_RelicOutputs"
 		format := rapid.SampledFrom([]string{"pe", "msi", "ps", "jar", "cat", "cat"}).Draw(t, "format")
-		key := rapid.SampledFrom(pipe.SigningKeys).Draw(t, "key")
+		key := rapid.SampledFrom(outputKeys).Draw(t, "key")
 		h := rapid.SampledFrom([]crypto.Hash{crypto.SHA1, crypto.SHA256, crypto.SHA384, crypto.SHA512}).Draw(t, "hash")
 		arts.ExcludePEFewDirs = true
 		arts.ExcludeJAREdgeSpace = true
@@ -376,7 +452,7 @@ func TestC16_RelicOutputs(t *testing.T) {
 		if err != nil {
 			fail(t, test, "extract", classes, out[:min(len(out), 2000)], "cannot locate the PKCS#7 in relic's output: %v", err)
 		}
-		rec.Case(fmt.Sprintf("out|%s|%s|%s|%v|%s", format, key, h, flags, arts.SHA(a.Data)), "relic-output/"+format+"/"+keys.Kind(key), true)
+		rec.Case(fmt.Sprintf("out|%s|%s|%s|%v|%s", format, key, h, flags, arts.SHA(a.Data)), "relic-output/"+format+"/"+kindOf(key), true)
 		rec.Sample("relic-output/"+format, map[string]any{"format": format, "key": key, "digest": h.String(), "flags": flags, "pkcs7_len": len(p7)})
 		sd, err := der.ParseSignedData(p7)
 		if err != nil {
@@ -396,6 +472,9 @@ func TestC16_RelicOutputs(t *testing.T) {
 		leaf, err := sd.FindCert(&sd.SignerInfos[0])
 		if err != nil || !bytes.Equal(leaf.Raw, env.Leaf[key].Raw) {
 			fail(t, test, "verify", classes, p7, "signer certificate is not the configured leaf: %v", err)
+		}
+		if si := sd.SignerInfos[0]; si.IssuerRaw != nil && !bytes.Equal(si.IssuerRaw, env.Leaf[key].RawIssuer) {
+			fail(t, test, "verify", classes, p7, "the issuer name in the SignerInfo (%x...) is not the certificate's issuer field byte for byte (%x...)", clipb(si.IssuerRaw), clipb(env.Leaf[key].RawIssuer))
 		}
 		if format == "cat" {
 			// re-signing a catalog must carry the CTL over byte for byte
